@@ -109,7 +109,8 @@ def http_sig(r):
     return ":".join([ver, ",".join(items), absent, sw])
 
 
-NAME_CH = "abcXYZ019 ._-/()+!@#,;=[]"
+# \x0b \x0c \x1c \x1d \x1e: characters str.splitlines() treats as line ends but reading a text file does not
+NAME_CH = "abcXYZ019 ._-/()+!@#,;=[]" + "\x0b\x0c\x1c\x1d\x1e"
 
 
 def word(r, lo=0, hi=8, alphabet=NAME_CH):
@@ -172,7 +173,7 @@ class File:
 def noise(r, f):
     k = r.random()
     if k < 0.3:
-        f.add(r.choice(["; comment", ";", "  ; indented", ";sig = 1", "; [mtu]"]), "comment")
+        f.add(r.choice(["; comment", ";", "  ; indented", ";sig = 1", "; [mtu]", "; page\x0cbreak", ";\x0b", "; a\x1cb\x1dc\x1e"]), "comment")
     elif k < 0.6:
         f.add(r.choice(["", "   ", "\t", " \t "]), "blank")
     elif k < 0.8:
